@@ -68,6 +68,8 @@ def main():
         R.violation("engine", "internal-error", spec["rules"][0].__name__ if spec["rules"] else "?",
                     "the rule engine failed (fail closed): " + tb.splitlines()[-1], details=tb)
     if args.tier == "thorough":
+        # the control trees are the same for every property: keep their facts between the properties of a sweep
+        os.environ.setdefault("TCVERIF_KEEP_FACTS", "80")
         import sensitivity  # noqa: E402
 
         sensitivity.run(args.prop, R, seed)
